@@ -27,6 +27,9 @@ type fval struct {
 	fields map[string]fval
 	// address of (a field path inside) a local
 	addr *faddr
+	// a composite value read from an immutable package-level table (consteval value), or a pointer to one
+	cv    Val
+	cvptr Val
 }
 
 type faddr struct {
@@ -35,7 +38,7 @@ type faddr struct {
 }
 
 func (v fval) known() bool {
-	return v.k != nil || v.fn != nil || v.isNil || v.tuple != nil || v.fields != nil || v.addr != nil
+	return v.k != nil || v.fn != nil || v.isNil || v.tuple != nil || v.fields != nil || v.addr != nil || v.cv != nil || v.cvptr != nil
 }
 
 // structFval builds a struct value from a nested path map, e.g. {"Rat.Num": 0}.
@@ -187,6 +190,14 @@ func (f *folder) foldCall(fn *ssa.Function, args []fval) (fval, error) {
 				}
 			case *ssa.UnOp:
 				if x.Op == token.MUL {
+					if g, ok := x.X.(*ssa.Global); ok {
+						env[x] = f.c.globalTable(g)
+						continue
+					}
+					if a := f.val(env, x.X); a.cvptr != nil {
+						env[x] = fromVal(a.cvptr)
+						continue
+					}
 					if a := f.val(env, x.X); a.addr != nil {
 						cur, ok := mem[a.addr.base]
 						for _, part := range a.addr.path {
@@ -216,6 +227,23 @@ func (f *folder) foldCall(fn *ssa.Function, args []fval) (fval, error) {
 					env[x] = fval{fn: g, t: x.Type()}
 				}
 			case *ssa.Call:
+				if bi, ok := x.Call.Value.(*ssa.Builtin); ok && bi.Name() == "len" && len(x.Call.Args) == 1 {
+					a := f.val(env, x.Call.Args[0])
+					switch cv := a.cv.(type) {
+					case *ListV:
+						env[x] = fval{k: constant.MakeInt64(int64(len(cv.Elems))), t: x.Type()}
+						continue
+					case *MapV:
+						env[x] = fval{k: constant.MakeInt64(int64(len(cv.Entries))), t: x.Type()}
+						continue
+					}
+					if a.k != nil && a.k.Kind() == constant.String {
+						env[x] = fval{k: constant.MakeInt64(int64(len(constant.StringVal(a.k)))), t: x.Type()}
+						continue
+					}
+					env[x] = top
+					continue
+				}
 				callee := staticCallee(&x.Call)
 				if callee == nil {
 					// call through a known function value?
@@ -243,6 +271,28 @@ func (f *folder) foldCall(fn *ssa.Function, args []fval) (fval, error) {
 				} else {
 					env[x] = r
 				}
+			case *ssa.Lookup:
+				env[x] = foldLookup(x, f.val(env, x.X), f.val(env, x.Index))
+			case *ssa.IndexAddr:
+				if l, ok := f.val(env, x.X).cv.(*ListV); ok {
+					if iv := f.val(env, x.Index); iv.k != nil && iv.k.Kind() == constant.Int {
+						if i, ok := constant.Int64Val(iv.k); ok && i >= 0 && int(i) < len(l.Elems) {
+							env[x] = fval{cvptr: l.Elems[i]}
+							continue
+						}
+					}
+				}
+				env[x] = top
+			case *ssa.Index:
+				if l, ok := f.val(env, x.X).cv.(*ListV); ok {
+					if iv := f.val(env, x.Index); iv.k != nil && iv.k.Kind() == constant.Int {
+						if i, ok := constant.Int64Val(iv.k); ok && i >= 0 && int(i) < len(l.Elems) {
+							env[x] = fromVal(l.Elems[i])
+							continue
+						}
+					}
+				}
+				env[x] = top
 			case *ssa.Extract:
 				t := f.val(env, x.Tuple)
 				if t.tuple != nil && x.Index < len(t.tuple) {
@@ -403,4 +453,141 @@ func libTransfer(fn *ssa.Function, args []fval) (fval, error) {
 	case "slices.Contains":
 	}
 	return top, fmt.Errorf("no transfer function for %s with these arguments", name)
+}
+
+
+// fromVal converts a table value (consteval) into a folder value.
+func fromVal(v Val) fval {
+	switch x := v.(type) {
+	case *CVal:
+		return fval{k: x.V, t: x.T}
+	case *StructV:
+		fs := map[string]fval{}
+		for n, fv := range x.Fields {
+			fs[n] = fromVal(fv)
+		}
+		return fval{fields: fs, t: x.T}
+	case *MapV, *ListV:
+		return fval{cv: v}
+	}
+	return top
+}
+
+// zeroFval: the zero value of a basic / struct type.
+func zeroFval(t types.Type) fval {
+	switch u := t.Underlying().(type) {
+	case *types.Basic:
+		switch {
+		case u.Info()&types.IsBoolean != 0:
+			return fval{k: constant.MakeBool(false), t: t}
+		case u.Info()&types.IsString != 0:
+			return fval{k: constant.MakeString(""), t: t}
+		case u.Info()&types.IsInteger != 0:
+			return fval{k: constant.MakeInt64(0), t: t}
+		case u.Info()&types.IsFloat != 0:
+			return fval{k: constant.MakeFloat64(0), t: t}
+		}
+	case *types.Struct:
+		fs := map[string]fval{}
+		for i := 0; i < u.NumFields(); i++ {
+			fs[u.Field(i).Name()] = zeroFval(u.Field(i).Type())
+		}
+		return fval{fields: fs, t: t}
+	case *types.Pointer, *types.Slice, *types.Map, *types.Interface, *types.Signature:
+		return fval{isNil: true, t: t}
+	}
+	return top
+}
+
+// foldLookup: m[k] on an immutable map table with a constant key (also string indexing is left unknown).
+func foldLookup(x *ssa.Lookup, m, k fval) fval {
+	mv, ok := m.cv.(*MapV)
+	if !ok || k.k == nil {
+		return top
+	}
+	mt, ok := x.X.Type().Underlying().(*types.Map)
+	if !ok {
+		return top
+	}
+	var hit Val
+	for _, e := range mv.Entries {
+		ck, ok := e.K.(*CVal)
+		if !ok {
+			return top
+		}
+		if ck.V.Kind() == k.k.Kind() && constant.Compare(ck.V, token.EQL, k.k) {
+			hit = e.V
+		}
+	}
+	var v fval
+	if hit != nil {
+		v = fromVal(hit)
+	} else {
+		v = zeroFval(mt.Elem())
+	}
+	if x.CommaOk {
+		return fval{tuple: []fval{v, {k: constant.MakeBool(hit != nil), t: types.Typ[types.Bool]}}}
+	}
+	return v
+}
+
+// globalTable: the value of a package-level variable that is initialised by a constant literal and never written afterwards.
+func (c *Ctx) globalTable(g *ssa.Global) fval {
+	if c.globalTabs == nil {
+		c.globalTabs = map[*ssa.Global]fval{}
+	}
+	if v, ok := c.globalTabs[g]; ok {
+		return v
+	}
+	c.globalTabs[g] = top
+	if g.Pkg == nil || !c.isRepoPkgPath(g.Pkg.Pkg.Path()) {
+		return top
+	}
+	obj, ok := g.Object().(*types.Var)
+	if !ok {
+		return top
+	}
+	// immutable: outside the package initialiser the variable is only ever loaded
+	for _, fn := range c.srcFuncs() {
+		if fn.Name() == "init" && fn.Synthetic != "" {
+			continue
+		}
+		mutated := false
+		allInstrs(fn, func(in ssa.Instruction) {
+			for _, op := range in.Operands(nil) {
+				if *op != ssa.Value(g) {
+					continue
+				}
+				if u, ok := in.(*ssa.UnOp); ok && u.Op == token.MUL {
+					// a load; writes through the loaded map/slice are looked for below
+					for _, r := range *u.Referrers() {
+						switch w := r.(type) {
+						case *ssa.MapUpdate:
+							if w.Map == ssa.Value(u) {
+								mutated = true
+							}
+						case *ssa.IndexAddr:
+							for _, rr := range *w.Referrers() {
+								if st, ok := rr.(*ssa.Store); ok && st.Addr == ssa.Value(w) {
+									mutated = true
+								}
+							}
+						}
+					}
+					continue
+				}
+				mutated = true
+			}
+		})
+		if mutated {
+			return top
+		}
+	}
+	val, _, err := c.evalVar(obj)
+	if err != nil {
+		return top
+	}
+	r := fromVal(val)
+	c.globalTabs[g] = r
+	return r
 }
